@@ -1002,10 +1002,10 @@ fn gen_max(rng: &mut Rng) -> usize {
     }
 }
 
-fn gen_msgs(rng: &mut Rng, legal: bool) -> Vec<Msg> {
+fn gen_msgs(rng: &mut Rng, legal: bool, long_ok: bool) -> Vec<Msg> {
     let n = rng.range(1, 6) as usize;
     let mut open = false;
-    let mut long_used = false;
+    let mut long_used = !long_ok;
     let mut v = vec![];
     for _ in 0..n {
         let kind = rng.below(if legal { 9 } else { 10 });
@@ -1081,10 +1081,10 @@ fn hot_of_msgs(msgs: &[Msg], masked: bool) -> (usize, Vec<usize>) {
     (pos, hot)
 }
 
-fn gen_round(rng: &mut Rng) -> Case {
+fn gen_round(rng: &mut Rng, long_ok: bool) -> Case {
     let server_enc = rng.chance(1, 2);
     let legal = rng.chance(4, 5);
-    let msgs = gen_msgs(rng, legal);
+    let msgs = gen_msgs(rng, legal, long_ok);
     let (total, hot) = hot_of_msgs(&msgs, !server_enc);
     // mostly a max_size that lets the messages through, sometimes a boundary value
     let biggest = msgs.iter().filter_map(msg_payload).map(|p| p.len()).max().unwrap_or(0);
@@ -1186,13 +1186,13 @@ fn gen_frame(rng: &mut Rng, server: bool, valid: bool, open: &mut bool, allow_lo
     f
 }
 
-fn gen_decode(rng: &mut Rng) -> Case {
+fn gen_decode(rng: &mut Rng, long_ok: bool) -> Case {
     let server = rng.chance(1, 2);
     let n = rng.range(1, 6) as usize;
     let bad_at = if rng.chance(1, 2) { Some(rng.below(n as u64) as usize) } else { None };
     let mut open = false;
     let mut frames = vec![];
-    let mut long_used = false;
+    let mut long_used = !long_ok;
     for i in 0..n {
         let f = gen_frame(rng, server, bad_at != Some(i), &mut open, !long_used);
         if f.pl.len > 127 {
@@ -1251,7 +1251,7 @@ fn gen_handshake(rng: &mut Rng) -> Case {
             3 => { if let Some(h) = headers.iter_mut().find(|h| h.0 == "connection") { h.1 = rng.pick(&[&b"keep-alive, Upgrade"[..], b"upgrade", b"UPGRADE", b"close", b"keep-alive", b"upgrad", b"", b"Upgrade\xff"]).to_vec() } }
             4 => {
                 if let Some(h) = headers.iter_mut().find(|h| h.0 == "sec-websocket-version") {
-                    h.1 = rng.pick(&[&b"8"[..], b"7", b"12", b"13 ", b" 13", b"013", b"", b"13, 8", b"14", b"5"]).to_vec() } };
+                    h.1 = rng.pick(&[&b"8"[..], b"7", b"12", b"13 ", b" 13", b"013", b"", b"13, 8", b"14", b"5"]).to_vec();
                 }
             }
             5 => {
@@ -1309,13 +1309,15 @@ fn main() {
         em.emit(run_case(id, &case));
     }
     if args.case.is_none() {
-        let n = args.n.unwrap_or(if args.thorough() { 6000 } else { 700 });
+        let n = args.n.unwrap_or(if args.thorough() { 4000 } else { 600 });
         let mut rng = Rng::new(args.seed);
         for i in 0..n {
             let mut r = rng.fork();
+            // payloads of 65535 bytes and more are costly to evaluate in Coq: one case in twelve (quick), one in six (thorough)
+            let long_ok = if args.thorough() { r.chance(1, 6) } else { r.chance(1, 12) };
             let case = match r.below(20) {
-                0..=8 => gen_round(&mut r),
-                9..=16 => gen_decode(&mut r),
+                0..=8 => gen_round(&mut r, long_ok),
+                9..=16 => gen_decode(&mut r, long_ok),
                 17 | 18 => gen_handshake(&mut r),
                 _ => gen_hashkey(&mut r),
             };
